@@ -65,6 +65,8 @@ struct Cfg {
     panic: bool,
     burst: u32,
     pes: bool,
+    /// the sender emits a message and a self message from at_sim_end (allowed, never processed)
+    send_at_end: bool,
 }
 
 struct Tx {
@@ -94,6 +96,13 @@ impl Module for Tx {
         if m.header().kind == 5 {
             send(m, "out");
         }
+    }
+    fn at_sim_end(&mut self) -> Result<(), RuntimeError> {
+        if self.cfg.send_at_end {
+            send(Message::default().kind(11).with_content(Tok::new(BODY)), "out");
+            schedule_in(Message::default().kind(12).with_content(Tok::new(BODY)), Duration::from_secs(1));
+        }
+        Ok(())
     }
     fn stack(&self, mut s: ProcessingStack) -> ProcessingStack {
         if self.cfg.pes {
@@ -323,7 +332,7 @@ fn reference_trace() -> Result<u64, String> {
 }
 
 fn case_json(c: &Cfg, stop: Stop) -> Value {
-    json!({"policy": c.policy, "tasks": c.tasks, "shutdown": c.shutdown, "panic": c.panic, "burst": c.burst, "pes": c.pes,
+    json!({"policy": c.policy, "tasks": c.tasks, "shutdown": c.shutdown, "panic": c.panic, "burst": c.burst, "pes": c.pes, "send_at_end": c.send_at_end,
            "stop": match stop { Stop::NeverBuilt => json!("never_built"), Stop::Built => json!("built_not_started"), Stop::Stepped(k) => json!({"stepped": k}),
                                 Stop::MaxItr(k, o) => json!({"max_itr": k, "drop_app_first": o}), Stop::MaxTime(t) => json!({"max_time_tenths": t}) }})
 }
@@ -335,6 +344,7 @@ fn case_from(v: &Value) -> (Cfg, Stop) {
         panic: v["panic"].as_bool().unwrap(),
         burst: v["burst"].as_u64().unwrap() as u32,
         pes: v["pes"].as_bool().unwrap(),
+        send_at_end: v["send_at_end"].as_bool().unwrap_or(false),
     };
     let s = &v["stop"];
     let stop = if s == "never_built" {
@@ -377,7 +387,7 @@ impl Property for C20 {
     }
     fn rule(&self, tier: Tier) -> String {
         format!(
-            "generated simulations: queue policy {{Drop, Queue(None), Queue(200 B)}} x tasks (timer-blocked, far-future, receive loop holding messages) on/off x shut-down-and-restarted transit module on/off x panicking receiver on/off x burst {:?} x processing elements on/off, \
+            "generated simulations: queue policy {{Drop, Queue(None), Queue(200 B)}} x tasks (timer-blocked, far-future, receive loop holding messages) on/off x shut-down-and-restarted transit module on/off x panicking receiver on/off x burst {:?} x processing elements on/off x messages emitted from at_sim_end on/off, \
              on a fixed topology with a parent/child pair and a ring of three busy channels through a transit gate; stopping points: builder dropped, built not started, started and stepped k events for k in 0..={}, max_itr(k) for every k up to the total + 1 in both drop orders (app first / profiler with remaining events first), max_time in {{0, 0.5, .., 4, 10, 60}} s; \
              oracle: per-kind live-object counters all zero and no double drop after the last handle is gone; then a reference simulation must reproduce the trace it gave before anything else ran in the process (and the same in every worker process); \
              non-trivial = stopping point that leaves events, queued messages or blocked tasks behind",
@@ -389,7 +399,7 @@ impl Property for C20 {
         vec!["user-level reference cycles (a task capturing its own module handle) are outside the alphabet".into()]
     }
     fn required_features(&self, _tier: Tier) -> Vec<&'static str> {
-        vec!["stopped_with_remaining_events", "queue_policy_with_backlog", "ended_with_errors", "never_started", "stepped_without_finish", "restarted_module"]
+        vec!["stopped_with_remaining_events", "queue_policy_with_backlog", "ended_with_errors", "never_started", "stepped_without_finish", "restarted_module", "message_emitted_during_teardown"]
     }
     fn explore(&self, ctx: &mut Ctx) {
         let baseline = match reference_trace() {
@@ -407,8 +417,8 @@ impl Property for C20 {
                 for shutdown in [false, true] {
                     for panic in [false, true] {
                         for &burst in &bursts {
-                            for pes in [false, true] {
-                                let c = Cfg { policy, tasks, shutdown, panic, burst, pes };
+                            for (pes, send_at_end) in [(false, false), (true, false), (false, true), (true, true)] {
+                                let c = Cfg { policy, tasks, shutdown, panic, burst, pes, send_at_end };
                                 if !ctx.mine() {
                                     continue;
                                 }
@@ -436,6 +446,9 @@ impl Property for C20 {
                                     }
                                     if shutdown {
                                         ctx.hit("restarted_module");
+                                    }
+                                    if send_at_end {
+                                        ctx.hit("message_emitted_during_teardown");
                                     }
                                     match check(&c, stop, baseline) {
                                         Ok((o, remaining)) => {
